@@ -63,7 +63,15 @@ type RunOpts struct {
 	CloseCalls      int
 	CloseAfterWait  bool // close after Wait yielded (EOS / error)
 	MaxWait         time.Duration
+	AfterCloseWait  time.Duration // how long Wait() may take after the harness closed the client (default 6 s)
 	SkipLeakCheck   bool
+}
+
+func (o RunOpts) afterClose() time.Duration {
+	if o.AfterCloseWait > 0 {
+		return o.AfterCloseWait
+	}
+	return 6 * time.Second
 }
 
 func codecName(c codecs.Codec) string {
@@ -91,6 +99,14 @@ func RunClient(o RunOpts) *RunResult {
 	res := &RunResult{}
 	t0 := time.Now()
 	o.Server.ResetClock(t0)
+	// goroutines of earlier clients of this process (left behind by a case that already failed)
+	// are not this client's
+	preexisting := map[int64]bool{}
+	if !o.SkipLeakCheck {
+		for _, g := range mux.Goroutines() {
+			preexisting[g.ID] = true
+		}
+	}
 	var mu sync.Mutex
 	waited := false
 	delivered := 0
@@ -214,8 +230,8 @@ func RunClient(o RunOpts) *RunResult {
 			mu.Unlock()
 			res.WaitErr = err
 			res.WaitReturned = false // only after the harness closed it
-		case <-time.After(10 * time.Second):
-			res.WaitErr = fmt.Errorf("HARNESS: Wait() yields nothing even 10 s after Close")
+		case <-time.After(o.afterClose()):
+			res.WaitErr = fmt.Errorf("HARNESS: Wait() yields nothing even %v after Close", o.afterClose())
 		}
 	}
 	if o.CloseAfterWait {
@@ -233,6 +249,9 @@ func RunClient(o RunOpts) *RunResult {
 		for {
 			var leaked []string
 			for _, g := range mux.Goroutines() {
+				if preexisting[g.ID] {
+					continue
+				}
 				if strings.Contains(g.Stack, "gohlslib/v2.(*client") || strings.Contains(g.Stack, "gohlslib/v2.(*Client") {
 					if strings.Contains(g.Stack, "verifharness/cli.RunClient(") {
 						continue // the harness goroutine calling into the client API
